@@ -20,13 +20,12 @@ package bandersnatch
 //@ ensures result != nil ==> fresh(result) && result.X == *x && result.Y * result.Y == y2(*x)
 //@ ensures result != nil ==> (fp_lexlargest(result.Y) == choose_largest || result.Y == fp_zero)
 
-// ---- extended-coordinate mixed addition (a = -5), verified as polynomial identities over the integers (ring view).
-// h1 = T1*Z1 - X1*Y1 and h2 = T2 - X2*Y2 are the representation invariants of the operands; the cofactors make the
-// identities hypothesis-free, so they hold in every commutative ring (computed with sympy, checked by the solver).
+// ---- extended-coordinate mixed addition (a = -5): code == formula over the abstract field, for both aliasing patterns of
+// p and p1. That the formulas satisfy the affine twisted-Edwards addition law (with explicit cofactors of the operand
+// invariants) and restore T*Z = X*Y is the polynomial lemma /verif/spec/lemmas/C08_extended_add_normalized.smt2.
 //@ func ExtendedAddNormalized
-//@ props C05 C08
-//@ prelude fieldring
-//@ let d = CurveParams.D
+//@ props C08
+//@ prelude field curve
 //@ let X1 = p1.X
 //@ let Y1 = p1.Y
 //@ let Z1 = p1.Z
@@ -34,29 +33,18 @@ package bandersnatch
 //@ let X2 = p2.X
 //@ let Y2 = p2.Y
 //@ let T2 = p2.T
-//@ let h1 = T1*Z1 - X1*Y1
-//@ let h2 = T2 - X2*Y2
+//@ let A = X1*X2
+//@ let B = Y1*Y2
+//@ let C = T1*T2*CURVE_D
+//@ let E = (X2+Y2)*(X1+Y1) - A - B
+//@ let H = B - fp_of_int(5)*fp_neg(A)
 //@ requires p != p2 && p1 != p2
-//@ at return *: ghost Ev := E
-//@ at return *: ghost Fv := F
-//@ at return *: ghost Gv := G
-//@ at return *: ghost Hv := H
-//@ at return *: ghost rX := p.X
-//@ at return *: ghost rY := p.Y
-//@ at return *: ghost rT := p.T
-//@ at return *: ghost rZ := p.Z
-//@ at return *: assert@fx rX == Ev*Fv && rY == Gv*Hv && rT == Ev*Hv && rZ == Fv*Gv
-//@ at return *: assert@defs Ev == (X1+Y1)*(X2+Y2) - X1*X2 - Y1*Y2 && Fv == Z1 - T1*T2*d && Gv == Z1 + T1*T2*d && Hv == Y1*Y2 + 5*(X1*X2)
 //@ ensures result == p
-//@ ensures rT * rZ == rX * rY using fx
-//@ ensures rX * (Z1*Z1 + d*X1*Y1*X2*Y2) - rZ * ((X1*Y2 + Y1*X2)*Z1) == (T1*X1*X2*X2*Y2*Y2*Y2*d*d + T1*X2*X2*X2*Y1*Y2*Y2*d*d - X1*X2*Y2*Y2*Z1*d - X2*X2*Y1*Y2*Z1*d)*h1 + (T1*T1*T2*X1*Y2*Z1*d*d + T1*T1*T2*X2*Y1*Z1*d*d + T1*T1*X1*X2*Y2*Y2*Z1*d*d + T1*T1*X2*X2*Y1*Y2*Z1*d*d - T1*X1*X1*X2*Y1*Y2*Y2*d*d - T1*X1*X2*X2*Y1*Y1*Y2*d*d - T1*X1*Y2*Z1*Z1*d - T1*X2*Y1*Z1*Z1*d)*h2 using fx, defs
-//@ ensures rY * (Z1*Z1 - d*X1*Y1*X2*Y2) - rZ * ((Y1*Y2 + 5*X1*X2)*Z1) == (5*T1*X1*X2*X2*X2*Y2*Y2*d*d + T1*X2*X2*Y1*Y2*Y2*Y2*d*d + 5*X1*X2*X2*Y2*Z1*d + X2*Y1*Y2*Y2*Z1*d)*h1 + (5*T1*T1*T2*X1*X2*Z1*d*d + T1*T1*T2*Y1*Y2*Z1*d*d + 5*T1*T1*X1*X2*X2*Y2*Z1*d*d + T1*T1*X2*Y1*Y2*Y2*Z1*d*d - 5*T1*X1*X1*X2*X2*Y1*Y2*d*d - T1*X1*X2*Y1*Y1*Y2*Y2*d*d + 5*T1*X1*X2*Z1*Z1*d + T1*Y1*Y2*Z1*Z1*d)*h2 using fx, defs
-//@ ensures rX == p.X && rY == p.Y && rZ == p.Z && rT == p.T
-//@ ensures h1 == 0 && h2 == 0 ==> p.X * (Z1*Z1 + d*X1*Y1*X2*Y2) == p.Z * ((X1*Y2 + Y1*X2)*Z1) && p.Y * (Z1*Z1 - d*X1*Y1*X2*Y2) == p.Z * ((Y1*Y2 + 5*X1*X2)*Z1)
+//@ ensures p.X == E * (Z1 - C) && p.Y == (Z1 + C) * H && p.T == E * H && p.Z == (Z1 - C) * (Z1 + C)
 //@ modifies *p
 
 //@ func PointExtendedNormalized.Neg
-//@ props C05 C08
-//@ prelude fieldring
-//@ ensures result == p && p.X == 0 - old(p1.X) && p.Y == old(p1.Y) && p.T == 0 - old(p1.T)
+//@ props C08
+//@ prelude field
+//@ ensures result == p && p.X == fp_neg(old(p1.X)) && p.Y == old(p1.Y) && p.T == fp_neg(old(p1.T))
 //@ modifies *p
